@@ -548,11 +548,11 @@ Proof.
   { eapply delta_weaken; [apply with_lbf_delta; exact W|]. unfold live_lbf. rewrite Hvq. subst lbf. lia. }
   caseif.
   { cbn [snd]. eapply delta_weaken; [exact D0|]. apply N.eqb_eq in Heqb. lia. }
-  repeat (caseif; [failb|]).
+  caseif; [failb|].
   set (s0 := with_lbf s lbf true) in *.
-  set (share_next := lbf / n * p_w_next p / (p_w_vote p + p_w_next p)) in *.
+  set (share_next := if p_w_vote p + p_w_next p =? 0 then 0 else lbf / n * p_w_next p / (p_w_vote p + p_w_next p)) in *.
+  set (share_vote := if p_w_vote p + p_w_next p =? 0 then 0 else lbf / n - share_next) in *.
   set (next_total := share_next * N.of_nat (length vs)) in *.
-  set (share_vote := lbf / n - share_next) in *.
   clearbody next_total share_vote. clearbody share_next.
   match goal with |- Keep s (snd match ?x with _ => _ end) => set (step1 := x) end.
   assert (H1 : match step1 with
@@ -754,6 +754,35 @@ Proof.
   eapply delta_weaken; [exact (delta_trans _ _ _ _ _ _ _ D1 D2)|lia].
 Qed.
 
+Lemma transfer_from_common_keep s to amount rate esc : WF s -> Keep s (snd (transfer_from_common s to amount rate esc)).
+Proof.
+  intros W. unfold transfer_from_common.
+  set (moved := N.min (common_pool s) amount).
+  caseif; [failb|].
+  pose proof (with_common_delta s (common_pool s - moved) W) as Da.
+  pose proof (add_general_delta to moved _ (proj1 Da)) as Db.
+  set (s1 := add_general to moved (with_common s (common_pool s - moved))) in *.
+  assert (K1 : Keep s s1).
+  { eapply delta_weaken; [exact (delta_trans _ _ _ _ _ _ _ Da Db)|]. subst moved. lia. }
+  destruct esc; cbn [negb]; [|exact K1].
+  match goal with |- Keep s (snd match ?x with _ => _ end) => destruct x as [[com rest]|] end; [|failb].
+  caseif; [failb|].
+  match goal with |- context [active (acct ?x to)] => set (s2 := x) end.
+  assert (K2 : Keep s s2).
+  { subst s2. caseif; [exact K1|].
+    assert (D1 : Delta s1 (sub_general to rest s1) 0 rest) by (apply sub_general_delta; [exact (proj1 K1)|lia]).
+    pose proof (add_active_bal_delta to rest _ (proj1 D1)) as D2.
+    eapply keep_trans; [exact K1|]. eapply delta_weaken; [exact (delta_trans _ _ _ _ _ _ _ D1 D2)|lia]. }
+  caseif; [cbn [snd]; exact K2|].
+  destruct (shares_for_stake (active (acct s2 to)) com) as [m|]; [|failb].
+  caseif; [failb|]. cbn [snd].
+  assert (D1 : Delta s2 (sub_general to com s2) 0 com) by (apply sub_general_delta; [exact (proj1 K2)|lia]).
+  pose proof (add_active_bal_delta to com _ (proj1 D1)) as D2.
+  pose proof (mint_active_delta to to m _ (proj1 D2)) as D3.
+  eapply keep_trans; [exact K2|].
+  eapply delta_weaken; [exact (delta_trans _ _ _ _ _ _ _ (delta_trans _ _ _ _ _ _ _ D1 D2) D3)|lia].
+Qed.
+
 (* ---------- steps and runs ---------- *)
 Lemma keep_inv s s' : Inv s -> Keep s s' -> Inv s' /\ total_supply s' = total_supply s.
 Proof. intros I K. split; [exact (delta_inv _ _ I K)|exact (proj2 (proj2 K))]. Qed.
@@ -839,6 +868,7 @@ Proof.
   - apply HK; [apply debond_all_keep; exact W|reflexivity].
   - apply HK; [apply gov_reclaim_keep; exact W|reflexivity].
   - apply HK; [apply gov_discard_keep; exact W|reflexivity].
+  - apply HK; [apply transfer_from_common_keep; exact W|reflexivity].
 Qed.
 
 Lemma op_preserves_inv_l p s o : Inv s -> Inv (snd (step p s o)).
